@@ -145,8 +145,9 @@ class HostAdapter(srv.SrvAdapter):
                 self.loop.run_until_complete(fin())
                 self.daemon.discard(self.mgr.thread)
             else:
-                self.mgr.inbox.put(STOP)
-                self.mgr.thread.join(5)
+                if self.mgr.thread.is_alive():
+                    self.mgr.inbox.put(STOP)
+                    self.mgr.thread.join(5)
         except Exception:
             pass
 
@@ -166,7 +167,15 @@ class HostAdapter(srv.SrvAdapter):
                 self.listener_alive = False
         else:
             self.mgr.inbox.put(item)
-            if not self.mgr.ready.acquire(timeout=5):
+            # back in _listen() - or dead (noticed at once, not after a
+            # time-out: a broken tree would otherwise cost seconds per step)
+            for _ in range(500):
+                if self.mgr.ready.acquire(timeout=0.01):
+                    break
+                if not self.mgr.thread.is_alive():
+                    self.listener_alive = False
+                    break
+            else:
                 self.listener_alive = False
 
     def _extra_act(self, a):
